@@ -1,6 +1,6 @@
 ------------------------------- MODULE Regex -------------------------------
 (* like_regex: the pattern fragment the specification decides.              *)
-(* flags = [i, s, m, q] (BOOLEANs).  RegexMatch returns TRUE, FALSE or      *)
+(* flags = [i, s, m, q] (BOOLEANs).  RegexMatch returns "T", "F" or        *)
 (* "opaque" (pattern outside the fragment).                                 *)
 EXTENDS Integers, Sequences
 
@@ -18,9 +18,10 @@ MetaBytes == {92, 46, 43, 42, 63, 40, 41, 124, 91, 93, 123, 125, 94, 36}
 IsLiteralPattern(p) == \A i \in 1..Len(p) : p[i] \notin MetaBytes
 IsAscii(s) == \A i \in 1..Len(s) : s[i] < 128
 
-RegexMatch(pat, flags, s) ==
+TF(b) == IF b THEN "T" ELSE "F"
+RegexMatch(pat, flags, s) ==      \* "T", "F" or "opaque"
   IF flags.q \/ IsLiteralPattern(pat) THEN
-     IF flags.i THEN (IF IsAscii(pat) /\ IsAscii(s) THEN HasSub(FoldBytes(s), FoldBytes(pat)) ELSE "opaque")
-     ELSE HasSub(s, pat)
+     IF flags.i THEN (IF IsAscii(pat) /\ IsAscii(s) THEN TF(HasSub(FoldBytes(s), FoldBytes(pat))) ELSE "opaque")
+     ELSE TF(HasSub(s, pat))
   ELSE "opaque"
 =============================================================================
